@@ -3,6 +3,7 @@
 use crate::common::{Ctx, Report};
 
 mod c02fm;
+mod c08fm;
 
 pub fn dispatch(ctx: &Ctx, rep: &mut Report) {
     let fm = ctx.leg == "all" || ctx.leg == "fm";
@@ -65,6 +66,17 @@ pub fn dispatch(ctx: &Ctx, rep: &mut Report) {
             }
             if ris {
                 crate::onris::c07::run(ctx, rep);
+            }
+        },
+        "C08" => {
+            if ctx.leg == "all" || ctx.leg == "fm-weights" {
+                c08fm::run(ctx, rep);
+            }
+            if ctx.leg == "all" || ctx.leg == "fm-round0" {
+                crate::onfm::c08::round0(ctx, rep);
+            }
+            if ctx.leg == "all" || ctx.leg == "ris-round0" {
+                crate::onris::c08::round0(ctx, rep);
             }
         },
         other => {
